@@ -919,3 +919,150 @@ func RSelfShift(c *core.Ctx) {
 		c.Anchor("in-place shifts (copy within one slice)")
 	}
 }
+
+// ---------------------------------------------------------------------------
+// R-LOOPMATCH: the runner's own Match is read, not cached on.
+// Replace and the find-all calls keep one Runner for the whole operation and
+// look at the *Match that scan refills for every match.  That object is reset
+// between matches only in the fields the interpreter uses; derived state that
+// a Match builds lazily for API users (Groups() -> otherGroups) survives the
+// reset.  So on a scan result that is used inside such a loop — directly or
+// in a helper it is passed to — no Match method that stores into the Match
+// may be called.
+// ---------------------------------------------------------------------------
+
+func RLoopMatch(c *core.Ctx) {
+	c.Rule("R-LOOPMATCH", "on the *Match returned by Runner.scan inside a function that calls scan in a loop (the runner and its Match are reused for every match), and in the helpers that Match is passed to, only Match methods that store nothing into the Match are called: lazily cached state (Groups(), GroupByNumber -> otherGroups) would be frozen at the first match", 3)
+	p := c.P
+	scan := p.SSAFunc(p.LookupFunc("", "Runner.scan"))
+	if scan == nil {
+		c.Anchor("regexp2.Runner.scan")
+		return
+	}
+	// Match methods that may store into their receiver (transitively through receiver calls)
+	var matchMethods []*ssa.Function
+	for _, fn := range p.ModuleFuncs() {
+		if recv := fn.Signature.Recv(); recv != nil && core.FnPkgPath(fn) == core.PkgRoot {
+			if _, nm := core.NamedOf(recv.Type()); nm == "Match" {
+				matchMethods = append(matchMethods, fn)
+			}
+		}
+	}
+	mut := map[*ssa.Function]bool{}
+	for changed := true; changed; {
+		changed = false
+		for _, fn := range matchMethods {
+			if mut[fn] || len(fn.Params) == 0 {
+				continue
+			}
+			for _, b := range fn.Blocks {
+				for _, ins := range b.Instrs {
+					switch x := ins.(type) {
+					case *ssa.Store:
+						if fa, ok := x.Addr.(*ssa.FieldAddr); ok && fa.X == ssa.Value(fn.Params[0]) {
+							mut[fn] = true
+						}
+					case ssa.CallInstruction:
+						if cal := x.Common().StaticCallee(); cal != nil && mut[cal] && len(x.Common().Args) > 0 && x.Common().Args[0] == ssa.Value(fn.Params[0]) {
+							mut[fn] = true
+						}
+					}
+				}
+			}
+			if mut[fn] {
+				changed = true
+			}
+		}
+	}
+	// seeds: scan results in functions that call scan on a cycle
+	type fv struct {
+		fn *ssa.Function
+		v  ssa.Value
+	}
+	var work []fv
+	for _, fn := range p.ModuleFuncs() {
+		if fn == scan {
+			continue
+		}
+		for _, b := range fn.Blocks {
+			if !onCycle(b) {
+				continue
+			}
+			for _, ins := range b.Instrs {
+				if call, ok := ins.(*ssa.Call); ok && call.Call.StaticCallee() == scan {
+					for _, r := range core.Referrers(call) {
+						if ex, ok := r.(*ssa.Extract); ok && ex.Index == 0 {
+							work = append(work, fv{fn, ex})
+						}
+					}
+				}
+			}
+		}
+	}
+	if len(work) == 0 {
+		c.Anchor("functions that call Runner.scan in a loop")
+		return
+	}
+	seen := map[fv]bool{}
+	n := 0
+	for len(work) > 0 {
+		cur := work[0]
+		work = work[1:]
+		if seen[cur] {
+			continue
+		}
+		seen[cur] = true
+		name := core.SSAName(cur.fn)
+		// values equal to cur.v through phis
+		vals := map[ssa.Value]bool{cur.v: true}
+		for changed := true; changed; {
+			changed = false
+			for _, b := range cur.fn.Blocks {
+				for _, ins := range b.Instrs {
+					if phi, ok := ins.(*ssa.Phi); ok && !vals[phi] {
+						for _, e := range phi.Edges {
+							if vals[e] {
+								vals[phi] = true
+								changed = true
+							}
+						}
+					}
+				}
+			}
+		}
+		for _, b := range cur.fn.Blocks {
+			for _, ins := range b.Instrs {
+				call, ok := ins.(ssa.CallInstruction)
+				if !ok {
+					continue
+				}
+				cal := call.Common().StaticCallee()
+				if cal == nil {
+					continue
+				}
+				for i, a := range call.Common().Args {
+					if !vals[a] {
+						continue
+					}
+					isMatchMethod := false
+					for _, mm := range matchMethods {
+						if mm == cal && i == 0 {
+							isMatchMethod = true
+						}
+					}
+					if isMatchMethod {
+						n++
+						c.Visit(name)
+						c.Check(!mut[cal], fmt.Sprintf("%s / Match.%s on the runner's reused Match stores nothing (#%d)", name, cal.Name(), n), ins.Pos(),
+							"%s stores into the Match (lazily built, cached state); the runner refills this same Match for the next match without clearing that state, so every later match in the loop — and later calls on the pooled runner — see the first one's groups", cal.Name())
+					} else if core.InModule(cal) && i < len(cal.Params) && cal != scan {
+						work = append(work, fv{cal, cal.Params[i]})
+					}
+				}
+			}
+		}
+	}
+	if n == 0 {
+		c.Anchor("Match method calls on scan results inside loops")
+	}
+}
